@@ -9,6 +9,7 @@ pub mod c03;
 pub mod c04;
 pub mod c05;
 pub mod c06;
+pub mod c07;
 pub mod c09;
 pub mod c10;
 pub mod c14;
@@ -61,6 +62,7 @@ pub fn dispatch(name: &str, ctx: &Ctx) -> Option<Outcome> {
         "c04" => c04::run(ctx),
         "c05" => c05::run(ctx),
         "c06" => c06::run(ctx),
+        "c07" => c07::run(ctx),
         "c09" => c09::run(ctx),
         "c10" => c10::run(ctx),
         "c14" => c14::run(ctx),
